@@ -39,6 +39,85 @@ func sameObject(a, b ssa.Value) bool {
 	return canon(a) == canon(b)
 }
 
+// marshalledBytes: the byte slice v, used at instruction `at`, is the output of a completed Marshal call: a Marshal
+// call dominates `at`; or v is a parameter and this holds for the argument at every call site; or v is the result of
+// a library function every non-nil return of which is dominated by a Marshal call.
+func (c *Ctx) marshalledBytes(v ssa.Value, at ssa.Instruction, depth int) (bool, string) {
+	if depth > 3 {
+		return false, ""
+	}
+	isMarshal := func(in ssa.Instruction) bool {
+		call, ok := in.(*ssa.Call)
+		return ok && call.Call.StaticCallee() != nil && call.Call.StaticCallee().Name() == "Marshal"
+	}
+	found := false
+	allInstrs(at.Parent(), func(in ssa.Instruction) {
+		if isMarshal(in) && instrDominates(in, at) {
+			found = true
+		}
+	})
+	if found {
+		return true, "a Marshal call dominates the use in " + FuncName(at.Parent())
+	}
+	switch x := stripConv(v).(type) {
+	case *ssa.Parameter:
+		fn := x.Parent()
+		idx := -1
+		for i, p := range fn.Params {
+			if p == x {
+				idx = i
+			}
+		}
+		n := 0
+		for _, e := range c.callersOf(fn) {
+			if e.Site == nil || idx < 0 || idx >= len(e.Site.Common().Args) {
+				return false, ""
+			}
+			n++
+			if ok, _ := c.marshalledBytes(e.Site.Common().Args[idx], e.Site, depth+1); !ok {
+				return false, ""
+			}
+		}
+		if n > 0 {
+			return true, "a parameter; at every call site the argument is the output of a completed Marshal"
+		}
+	case *ssa.Extract:
+		call, ok := x.Tuple.(*ssa.Call)
+		if !ok {
+			return false, ""
+		}
+		g := call.Call.StaticCallee()
+		if g == nil || !InLib(g) || g.Blocks == nil {
+			return false, ""
+		}
+		nret := 0
+		for _, b := range g.Blocks {
+			ret, ok := b.Instrs[len(b.Instrs)-1].(*ssa.Return)
+			if !ok || b == g.Recover {
+				continue
+			}
+			rv := retVal(ret, x.Index)
+			if k, isC := rv.(*ssa.Const); isC && k.IsNil() {
+				continue
+			}
+			nret++
+			dom := false
+			allInstrs(g, func(in ssa.Instruction) {
+				if isMarshal(in) && instrDominates(in, ret) {
+					dom = true
+				}
+			})
+			if !dom {
+				return false, ""
+			}
+		}
+		if nret > 0 {
+			return true, "result of " + FuncName(g) + ", which returns the bytes only after Marshal"
+		}
+	}
+	return false, ""
+}
+
 func ruleP1(c *Ctx) *RuleResult {
 	r := &RuleResult{Floor: 5, FloorWhat: "publication sites"}
 	ro := c.roles()
@@ -108,6 +187,27 @@ func ruleP1(c *Ctx) *RuleResult {
 					fin = in
 				}
 			})
+			if fin == nil && kind == "init" {
+				// the bytes were produced by another phase: a parameter whose argument, at every call site, is the
+				// result of a function that returns it only after a Marshal call
+				src := obj
+				if cell != nil {
+					// a captured parameter is spilled into a cell at entry: the single value stored there
+					var vals []ssa.Value
+					for _, ref := range *cell.Referrers() {
+						if st, ok := ref.(*ssa.Store); ok && st.Addr == cell {
+							vals = append(vals, st.Val)
+						}
+					}
+					if len(vals) == 1 {
+						src = vals[0]
+					}
+				}
+				if ok, why := c.marshalledBytes(src, site, 0); ok {
+					r.ok(key, c.Pos(site.Pos()), FuncName(fn), what, why)
+					continue
+				}
+			}
 			if fin != nil {
 				r.ok(key, c.Pos(site.Pos()), FuncName(fn), what, "dominated by "+shortInstr(fin)+" at "+c.Pos(fin.Pos()))
 			} else {
@@ -1013,6 +1113,7 @@ func ruleP6(c *Ctx) *RuleResult {
 		segF := c.Field("", "muxerStream", "segments")
 		slotF := c.Field("", "muxerStream", "nextSegment")
 		loopClose, slotClose := false, false
+		var slotCloseAt ssa.Instruction
 		allInstrs(fn, func(in ssa.Instruction) {
 			if methodCallOn(in, "close", func(v ssa.Value) bool {
 				// element of s.segments
@@ -1028,6 +1129,7 @@ func ruleP6(c *Ctx) *RuleResult {
 			}
 			if methodCallOn(in, "close", func(v ssa.Value) bool { f, _ := loadedField(stripAsserts(v)); return f == slotF }) {
 				slotClose = true
+				slotCloseAt = in
 			}
 		})
 		if loopClose {
@@ -1058,7 +1160,33 @@ func ruleP6(c *Ctx) *RuleResult {
 			r.undecided("%s: %s — %s (the construct this rule is anchored on was not found: no verdict)", "muxerStream.close|listed", "stream close calls close() on every listed segment", "no loop over s.segments calling close()")
 		}
 		if slotClose {
-			r.ok("muxerStream.close|open", c.Pos(fn.Pos()), FuncName(fn), "stream close calls close() on the open segment", "s.nextSegment.close()")
+			// ... whenever there is one: the call depends on nothing but the slot being occupied
+			other := ""
+			for e := range controlEdges(fn, slotCloseAt.Block()) {
+				iff := fn.Blocks[e.from].Instrs[len(fn.Blocks[e.from].Instrs)-1].(*ssa.If)
+				okCond := false
+				if bo, ok := iff.Cond.(*ssa.BinOp); ok && (bo.Op == token.NEQ || bo.Op == token.EQL) {
+					for _, pair := range [][2]ssa.Value{{bo.X, bo.Y}, {bo.Y, bo.X}} {
+						if k, isC := pair[1].(*ssa.Const); isC && k.IsNil() {
+							if f, _ := loadedField(stripAsserts(pair[0])); f == slotF {
+								okCond = true
+							}
+						}
+					}
+				}
+				if bo, ok := iff.Cond.(*ssa.BinOp); ok && bo.Op == token.LSS {
+					okCond = true // the exit of the loop over the listed segments
+				}
+				if !okCond {
+					other = condText(c, iff)
+				}
+			}
+			if other == "" {
+				r.ok("muxerStream.close|open", c.Pos(fn.Pos()), FuncName(fn), "stream close calls close() on the open segment whenever there is one", "s.nextSegment.close(), guarded by the slot's own nil test only")
+			} else {
+				r.fail("muxerStream.close|open", c.Pos(posOf(slotCloseAt)), FuncName(fn), "stream close calls close() on the open segment whenever there is one",
+					"the call also depends on `"+other+"`: when that does not hold (MPEG-TS never has an open part) the open segment's file stays in Directory after Close, one per session")
+			}
 		} else {
 			r.fail("muxerStream.close|open", c.Pos(fn.Pos()), FuncName(fn), "stream close calls close() on the open segment", "the open segment's file is never removed")
 		}
